@@ -167,6 +167,57 @@ def run(chk, prog):
                         "StreamFrameReader::read no longer keeps previously received bytes in front of newly read ones for the next round (%s): a "
                         "frame split across segments is lost or reordered" % why)
 
+    # a fresh (empty) carry-over buffer may replace self.remaining only on the edge that proved self.remaining was None
+    if len(sr) == 1:
+        from ..flow import discr_branch
+        g = prog.body_of(sr[0])
+        fresh = [c for c in g.calls if re.search(r"BytesMut::(with_capacity|new)$|Default::default$", c.path or "")]
+        probes = [c for c in g.calls if re.search(r"Option::<T>::(as_mut|as_ref|is_none|is_some|take)$", c.path or "")
+                  and "f:remaining" in str(g.trace(op_base(c.args[0]), through_calls=[r"Option::<T>::as_"]))]
+        nfresh = 0
+        for b in g.reachable:
+            for st in g.stmts(b):
+                if not (st["k"] == "assign" and "f:remaining" in st["lhs"][1:]):
+                    continue
+                srcs = set()
+                rv = st["rv"]
+                ops = rv.get("ops", []) if rv["k"] == "agg" else ([rv["a"]] if rv["k"] == "use" else [])
+                work = [op_base(o) for o in ops]
+                for _ in range(6):
+                    nxt = []
+                    for l in work:
+                        if l is None:
+                            continue
+                        for k, info in g.trace(l):
+                            if k == "call":
+                                srcs.add(info.path or "")
+                            elif k == "agg":
+                                nxt += [op_base(o) for o in info.get("ops", [])]
+                    work = nxt
+                if not any(re.search(r"BytesMut::(with_capacity|new)$|Default::default$", x) for x in srcs):
+                    continue
+                nfresh += 1
+                ok = False
+                for pr in probes:
+                    if re.search(r"is_none$", pr.path):
+                        for (sb, tt, ft) in bool_branch(g, pr.dest[0]):
+                            ok = ok or edge_dominates(g, sb, tt, b)
+                    elif re.search(r"is_some$", pr.path):
+                        for (sb, tt, ft) in bool_branch(g, pr.dest[0]):
+                            ok = ok or edge_dominates(g, sb, ft, b)
+                    else:
+                        for (sb, tg, oth) in discr_branch(g, pr.dest[0]):
+                            none_t = tg.get(0, oth if 0 not in tg and len(tg) == 1 else None)
+                            if none_t is not None and edge_dominates(g, sb, none_t, b):
+                                ok = True
+                chk.instance("S3", "%s:%s" % (g.file, g.line), "self.remaining is replaced by an empty buffer only where it was None", ok)
+                if not ok:
+                    chk.finding("S3", g.key, "fresh-buffer", "", "%s:%s" % (g.file, g.line),
+                                "StreamFrameReader::read replaces self.remaining by a fresh empty buffer on a path that does not prove it was None: "
+                                "bytes of a partially received frame (for example fewer than the 12 header bytes) are thrown away, so the decoded "
+                                "frames depend on how the stream was segmented")
+        chk.floor("S3-fresh", nfresh, 1, "fresh carry-over buffer assignments in StreamFrameReader::read")
+
     # read_head vs from_buffer: same header arithmetic
     def head_consts(pat):
         f = prog.one(pat)
